@@ -1471,7 +1471,13 @@ fn exec(ctx: &mut RunCtx, w: &mut World, op: &Op) -> Step<()> {
                     return ctx.violation_for(owner, "return_value", "read|found_missing_file".to_string(), format!("read({:?}) returned {} bytes although no layer of the stack {:?} holds that file", path, b.len(), hc.stack));
                 }
                 (ReadExp::NotFound, Err(e)) => {
-                    if !matches!(e, LayeredFilesystemError::FileNotFound(_, _)) {
+                    // "a not-found error": the dedicated variant, or an I/O error of kind NotFound
+                    let not_found = match e {
+                        LayeredFilesystemError::FileNotFound(_, _) => true,
+                        LayeredFilesystemError::IOError(io) => io.kind() == std::io::ErrorKind::NotFound,
+                        _ => false,
+                    };
+                    if !not_found {
                         return ctx.violation_for(owner, "return_value", "read|wrong_error_for_missing_file".to_string(), format!("read({:?}) of a missing file failed with {} instead of the not-found error", path, e));
                     }
                     ctx.probe("read_missing_file");
